@@ -15,7 +15,7 @@ import (
 	"verifharness/internal/val"
 )
 
-var c16Floor = []string{"tpl.echo", "tpl.where", "tpl.in", "tpl.between", "tpl.func", "tpl.limit", "tpl.adjacent", "tpl.repeat", "tpl.protected.single", "tpl.protected.double", "tpl.protected.backtick", "tpl.protected.comment", "tpl.pg-ident", "comment.tab", "comment.backslash-eol", "arg.float.huge", "err.missing.huge", "comment.hash", "tpl.badutf8", "tpl.protected.backslash", "err.nan",
+var c16Floor = []string{"tpl.echo", "tpl.where", "tpl.in", "tpl.between", "tpl.func", "tpl.limit", "tpl.adjacent", "tpl.repeat", "tpl.protected.single", "tpl.protected.double", "tpl.protected.backtick", "tpl.protected.comment", "tpl.pg-ident", "tpl.idiomatic-array", "comment.tab", "comment.backslash-eol", "arg.float.huge", "err.missing.huge", "comment.hash", "tpl.badutf8", "tpl.protected.backslash", "err.nan",
 	"arg.string", "arg.int", "arg.negint", "arg.float", "arg.bool", "arg.nil", "str.quote", "str.backslash", "str.comment", "str.control", "str.keyword", "str.multibyte", "err.missing", "err.unused", "err.dollar0", "prepared", "concurrent"}
 
 func init() {
@@ -240,7 +240,7 @@ func c16Run(c *fw.Case) {
 		force = c16Floor[c.Idx%len(c16Floor)]
 	}
 	var feats []string
-	kinds := []string{"tpl.echo", "tpl.where", "tpl.in", "tpl.between", "tpl.func", "tpl.limit", "tpl.adjacent", "tpl.repeat", "tpl.protected.single", "tpl.protected.double", "tpl.protected.backtick", "tpl.protected.comment", "tpl.pg-ident"}
+	kinds := []string{"tpl.echo", "tpl.where", "tpl.in", "tpl.between", "tpl.func", "tpl.limit", "tpl.adjacent", "tpl.repeat", "tpl.protected.single", "tpl.protected.double", "tpl.protected.backtick", "tpl.protected.comment", "tpl.pg-ident", "tpl.idiomatic-array"}
 	kind := gen.Pick(c.R, kinds)
 	if strings.HasPrefix(force, "tpl.") {
 		kind = force
@@ -374,6 +374,15 @@ func c16Run(c *fw.Case) {
 			t.args[b] = gen.Pick(c.R, []string{"say \"hi\"", "\"", "a \"quoted\" word", "`\"`"})
 		}
 		t.pieces, t.slots = []string{"SELECT ", " AS a, ", " AS b, \"s1\" AS n, \"rid\" FROM t"}, []int{a, b}
+	case "tpl.idiomatic-array":
+		// evaluated under IdomaticArrays: the array literals of the template
+		// stay what they are whatever the arguments in front of or inside them hold
+		a, b := A("string"), A("string")
+		if c.Chance(0.5) {
+			t.args[a] = gen.Pick(c.R, []string{"Zoë", "日本語", "naïve [x] ' \\ --", "€", "[", "]", "a]b[c", "é\"[1]"})
+			t.args[b] = gen.Pick(c.R, []string{"ü", "日本", "]", "[é", "'[", "x"})
+		}
+		t.pieces, t.slots = []string{"SELECT ", " AS a, [1, 2] AS tags, [", ", 'z'] AS v FROM dual"}, []int{a, b}
 	}
 	tpl := t.text()
 	c.Feature(feats...)
@@ -432,12 +441,23 @@ func c16Run(c *fw.Case) {
 		return
 	}
 	// (1) shape
-	want, werr := shape(t.withSentinels())
+	parsed := func(sql string) (string, error) {
+		if kind == "tpl.idiomatic-array" {
+			// the statement is what the option's rewrite makes of the text
+			fixed, err := genql.FixIdiomaticArray(sql)
+			if err != nil {
+				return "", err
+			}
+			sql = fixed
+		}
+		return shape(sql)
+	}
+	want, werr := parsed(t.withSentinels())
 	if werr != nil {
 		c.Discard("template with sentinels does not parse: " + werr.Error())
 		return
 	}
-	got, gerr := shape(out)
+	got, gerr := parsed(out)
 	det["shape_expected"], det["shape_observed"] = want, got
 	if gerr != nil {
 		c.Violate("unparsable", fmt.Sprintf("the sanitized text does not parse: %v", gerr), det)
@@ -493,6 +513,20 @@ func c16Run(c *fw.Case) {
 		det["expected"] = val.Show(expect)
 		if !val.Equal(row, expect) {
 			c.Violate("echo", fmt.Sprintf("echo returned %s, expected %s", short(val.Canon(row), 200), short(val.Canon(expect), 200)), det)
+			return
+		}
+	case "tpl.idiomatic-array":
+		o := Run(doc, out, genql.IdomaticArrays())
+		c.Evals(1)
+		det["observed"] = o.Describe()
+		if !o.OK() {
+			c.Violate("exec", fmt.Sprintf("the sanitized query failed under IdomaticArrays: %v", o.Describe()), det)
+			return
+		}
+		want := []any{map[string]any{"a": t.args[0], "tags": []any{1.0, 2.0}, "v": []any{t.args[1], "z"}}}
+		det["expected"] = val.Show(want)
+		if !val.SameSeq(o.Rows, want) {
+			c.Violate("echo", fmt.Sprintf("under IdomaticArrays the query returned %s, expected %s", short(val.Canon(o.Rows), 300), short(val.Canon(want), 300)), det)
 			return
 		}
 	case "tpl.pg-ident":
